@@ -120,6 +120,10 @@ def session_stats(sess, ctx=None):
         st["map_calls"] = sess.simmap.total_calls
     if sess.restarts:
         st["fired_restart"] = sess.restarts
+    from . import world_a as _wa
+    if _wa.REJECTED_CALLS[0]:
+        st["fired_rejected_call"] = _wa.REJECTED_CALLS[0]
+        _wa.REJECTED_CALLS[0] = 0
     if sess.clock is not None:
         st["clock_reads"] = sess.clock.reads
         if sess.clock.jumps:
